@@ -765,6 +765,28 @@ pub fn c20_build(case: &Case, hist: &[COp]) -> Result<(), (String, String)> {
 /// `rev`: the provider's filter_candidates answers in reverse listing order; the cached matching /
 /// non-matching lists must then be exactly those answers ("as filter_candidates defines").
 pub fn c20_build_with(case: &Case, hist: &[COp], rev: bool) -> Result<(), (String, String)> {
+    c20_build_full(case, hist, rev, None)
+}
+
+/// Runs `op` on the cache without judging the answer; returns true if the call succeeded.
+fn c20_raw(cache: &SolverCache<Prov>, op: COp) -> bool {
+    match op {
+        COp::Cands(n) => cache.get_or_cache_candidates(NameId(n)).now_or_never().map_or(false, |r| r.is_ok()),
+        COp::Matching(v) => cache.get_or_cache_matching_candidates(VersionSetId(v)).now_or_never().map_or(false, |r| r.is_ok()),
+        COp::NonMatching(v) => cache.get_or_cache_non_matching_candidates(VersionSetId(v)).now_or_never().map_or(false, |r| r.is_ok()),
+        COp::Sorted(r) => cache.get_or_cache_sorted_candidates(to_req(r)).now_or_never().map_or(false, |r| r.is_ok()),
+        COp::Deps(s) => cache.get_or_cache_dependencies(SolvableId(s)).now_or_never().map_or(false, |r| r.is_ok()),
+        COp::Avail(s) => {
+            let _ = cache.are_dependencies_available_for(SolvableId(s));
+            true
+        }
+    }
+}
+
+/// `pre = (op, k)`: before the judged history, `op` is issued with the provider's cancellation firing
+/// (once) at its k-th poll; whatever that interrupted call left behind in the cache, every later
+/// answer must still be the reference answer. Returns Ok(true) if the interrupted call was cancelled.
+pub fn c20_build_full(case: &Case, hist: &[COp], rev: bool, pre: Option<(COp, u32)>) -> Result<(), (String, String)> {
     let u = &case.u;
     let sem = Sem::new(u, &case.p);
     let mut prov = Prov::new(u);
@@ -784,6 +806,24 @@ pub fn c20_build_with(case: &Case, hist: &[COp], rev: bool) -> Result<(), (Strin
     // answers seen so far: op -> (content, address)
     let mut seen: HashMap<COp, (Vec<u32>, usize)> = HashMap::new();
     let provider_calls = |l: &Vec<Ev>| l.len();
+    if let Some((op, k)) = pre {
+        cache.provider().polls.set(0);
+        cache.provider().cancel.set(CancelPlan::At { k, sticky: false });
+        let _ = c20_raw(&cache, op);
+        cache.provider().cancel.set(CancelPlan::Never);
+        // what the interrupted call did fetch counts as fetched
+        for e in log.borrow().iter() {
+            match e {
+                Ev::Cands(n) => {
+                    fetched_c.insert(*n);
+                }
+                Ev::Deps(d) => {
+                    fetched_d.insert(*d);
+                }
+                _ => {}
+            }
+        }
+    }
     for (step, op) in hist.iter().enumerate() {
         let before = provider_calls(&log.borrow());
         let (content, addr): (Vec<u32>, usize) = match *op {
@@ -952,6 +992,38 @@ pub fn check_c20(case: &Case, depth: usize, order: (usize, u64, u32), acc: &mut 
             }
         }
         acc.add("call_sequences", total2);
+    }
+    // an interrupted query must leave nothing wrong behind: every operation, cancelled at each of its
+    // polls, followed by every operation
+    {
+        let mut n_cancel = 0u64;
+        'outer: for &op1 in &ops {
+            // number of polls op1 makes on a fresh cache
+            let polls = {
+                let mut prov = Prov::new(&case.u);
+                prov.logging = false;
+                let cache = SolverCache::new(prov);
+                let _ = c20_raw(&cache, op1);
+                cache.provider().polls.get()
+            };
+            for k in 0..polls {
+                for &op2 in &ops {
+                    acc.evaluations += 1;
+                    n_cancel += 1;
+                    if let Err((sig, what)) = c20_build_full(case, &[op2], false, Some((op1, k))) {
+                        acc.violation(viol(
+                            "C20",
+                            &format!("{sig}:after-cancelled-query"),
+                            format!("{what} (after {op1:?} was cancelled at its poll {k})"),
+                            json!({"kind": "c20", "case": case, "history": [op2], "cancelled_first": {"op": op1, "poll": k}, "universe": case.u.describe(&case.p)}),
+                            order,
+                        ));
+                        break 'outer;
+                    }
+                }
+            }
+        }
+        acc.add("call_sequences_after_a_cancelled_query", n_cancel);
     }
     acc.mark_nontrivial(case_hash(case));
     // re-entrant use from inside sort_candidates during a full solve
@@ -1383,7 +1455,11 @@ pub fn replay_c20(v: &serde_json::Value) -> Vec<String> {
     }
     if v["kind"] == "c20" {
         let hist: Vec<COp> = serde_json::from_value(v["history"].clone()).expect("history");
-        match c20_build_with(&case, &hist, v["filter_reversed"] == true) {
+        let pre: Option<(COp, u32)> = match (&v["cancelled_first"]["op"], v["cancelled_first"]["poll"].as_u64()) {
+            (op, Some(k)) if !op.is_null() => serde_json::from_value(op.clone()).ok().map(|o| (o, k as u32)),
+            _ => None,
+        };
+        match c20_build_full(&case, &hist, v["filter_reversed"] == true, pre) {
             Ok(_) => vec![],
             Err((sig, _)) => vec![sig],
         }
